@@ -6,7 +6,7 @@ from props import mgen
 
 ID = 'C03'
 PROPS_FILE = 'theories/props/Properties_C03.v'
-CONE = mgen.CONE + ['theories/proofs/C03.v', 'theories/proofs/C03fix.v']
+CONE = mgen.CONE + ['theories/proofs/C03.v', 'theories/proofs/C03hist.v']
 
 def gen_cases(run, thorough):
     r = run.rng('hist'); dist = {}; cases = [mgen.expansion_case()]
@@ -44,7 +44,7 @@ def oracle(case, out):
 def check(run):
     thorough = run.tier == 'thorough'
     run.cov['trusted_base'] += [
-        "hand-written model DE.Membership (RaftMembership member map / voters / apply_config_change, Membership::is_single_node_cluster, ElectionHandler::broadcast_vote_requests), tied to the code by the membership probe",
+        "hand-written model DE.Membership (RaftMembership member map / voters / apply_config_change, Membership::is_single_node_cluster = initial_cluster_size == 1 && voters().is_empty(), ElectionHandler::broadcast_vote_requests), tied to the code by the membership probe",
         "harness: the real RaftMembership (constructed through the add-only hook RaftMembership::verif_new = RaftMembership::new) and the real ElectionHandler::broadcast_vote_requests; MockTransport records whether vote requests were sent and plays the voters' answers",
         "the election moment is taken twice: ElectionHandler::broadcast_vote_requests called directly, and a real CandidateState::tick (built from a FollowerState) whose BecomeLeader event is observed",
     ]
@@ -65,6 +65,8 @@ def check(run):
                 violations.append({'class': why[0], 'probe': 'membership', 'input': c, 'output': o, 'why': why[1]})
         mgen.correspondence(broken, run, 'memb_probe', pairs, 'C03', 'DE.Membership vs RaftMembership + ElectionHandler (probe membership)')
         dist['wins'] = sum(1 for c, o in pairs for v in mgen.views(o) if len(v[0]) == 4 and v[0][3] == 1)
+        # liveness residue of the fix (reported, never judged): several nodes configured, shrunk to itself, cannot win
+        dist['lost-with-no-voter-left (liveness, not judged)'] = sum(1 for c, o in pairs for s, v in zip(c[2], mgen.views(o)[1:]) if s[0] == 6 and not v[2] and v[0][0] == 0)
         dist['wins-by-shortcut'] = sum(1 for c, o in pairs for s, v in zip(c[2], mgen.views(o)[1:]) if s[0] == 6 and v[0][0] == 1 and v[0][1] == 0)
         run.add_cases(len(pairs), len({json.dumps(c) for c, _ in pairs}), [{'case': pairs[j][0], 'impl': pairs[j][1]} for j in (0, len(pairs) - 1)], dist,
                       'seeded membership histories from 1..5 initial nodes (AddNode incl. odd statuses, leader batch promotion sized by calculate_safe_batch_size, Promote, RemoveNode, BatchRemove, invalid changes, restarts) with election attempts (grant / refuse / rpc-error per voter) in between and at the end; plus the documented single-node expansion and all initial sizes 1..5; distinct = distinct cases')
@@ -84,8 +86,8 @@ def replay(path):
 META = {
     'title': 'A node only skips vote collection when it is the only voter',
     'level': 'proof',
-    'technique': 'Rocq theorems on the membership/election model (characterisation of the shortcut, refutation witness, soundness outside the known class) + differential check of the real RaftMembership and ElectionHandler::broadcast_vote_requests over generated membership histories',
-    'text': "Rocq: C03_shortcut_taken_iff_booted_alone — over all histories of AddNode/RemoveNode/Promote/BatchPromote/BatchRemove from any initial configuration, the node wins without sending a vote request exactly when its INITIAL configuration had one node; C03_shortcut_refuted — the property is false for a node that booted alone and was expanded (node 1, learners 2 and 3 joined and promoted: wins with zero votes while voters = [2,3]); C03_shortcut_sound_outside_known — for every other history a win without a granted vote implies there is no other voter, and a win with other voters takes granted votes of a strict majority of the current voters, self included. The model is replayed against the real RaftMembership + ElectionHandler and the property is evaluated on the implementation's outputs at every election moment.",
-    'note': "Trusted: Coq kernel, hand model Membership (validated by the probe), mock transport. Known finding on the unchanged tree: Membership::is_single_node_cluster tests initial_cluster_size()==1, which never changes (class shortcut-with-other-voters, see known_findings.json). Needs the add-only hook RaftMembership::verif_new.",
+    'technique': 'Rocq theorems on the membership/election model of the repaired code (full statement for all histories, characterisation of the shortcut, the expanded single node needs a majority; the refutation of the pre-fix variant kept as history) + differential check of the real RaftMembership, ElectionHandler::broadcast_vote_requests and CandidateState::tick over generated membership histories',
+    'text': "Rocq: C03_shortcut_sound — over all histories of AddNode/RemoveNode/Promote/BatchPromote/BatchRemove from any initial configuration, at every election moment and for every pattern of answers, a win without a granted vote implies that the current membership has no other voting member, and with other voting members a win takes vote requests and granted votes of a strict majority of the current voters, self included; C03_shortcut_taken_iff — the shortcut (win without sending a vote request) is taken exactly when the node booted alone AND has no other voter now; C03_expanded_single_node_needs_majority; C03_residue_shrunk_cluster_never_elects (a node configured with several nodes that shrank to itself never wins: liveness, outside this property). History: C03_history_v0_shortcut_refuted / _taken_iff_booted_alone / _agrees_outside_known_class describe the variant before the fix. The model is replayed against the real RaftMembership + ElectionHandler + CandidateState::tick and the property is evaluated on the implementation's outputs at every election moment.",
+    'note': "Trusted: Coq kernel, hand model Membership (validated by the probe), mock transport. The unchanged tree used to violate this property (Membership::is_single_node_cluster tested initial_cluster_size()==1 only, so a node that booted alone and was expanded elected itself without votes); repaired by a fix: commit, see known_findings.json (class shortcut-with-other-voters, status fixed). A restarted node still falls back to its initial configuration (C28 known finding), so a node whose config file still lists it alone believes again that it has no other voter: that is C28's defect, the C03 statement is relative to the node's current membership. Needs the add-only hook RaftMembership::verif_new.",
     'design_ref': 'DESIGN.md §4 C03',
 }
